@@ -362,6 +362,21 @@ def one_map(run, seed, idx, mods):
     stale = [k for k in names if not np.array_equal(getattr(tm, k), res2[k])]
     if stale or not np.array_equal(tm.UBI, other):
         V("TensorMap:stale-cache", "TensorMap.%s not refreshed after %s" % (",".join(stale) or "UBI", how))
+    # two maps that are built empty and filled afterwards live side by side (one per phase, one per layer): each keeps its own
+    tmA, tmB = tmap.TensorMap(), tmap.TensorMap()
+    if idx % 2:
+        tmA.add_map("UBI", masked.copy())
+        tmB["UBI"] = other.copy()
+    else:
+        tmA["UBI"] = masked.copy()
+        _ = tmA.UB
+        tmB.add_map("UBI", other.copy())
+    run.count("tensormap_pairs_built_empty")
+    badA = [k for k in names if not np.array_equal(getattr(tmA, k)[~m3], res["masked"][k][~m3])]
+    badB = [k for k in names if not np.array_equal(getattr(tmB, k), res2[k])]
+    if badA or badB or not np.array_equal(tmA.UBI, masked, equal_nan=True) or not np.array_equal(tmB.UBI, other):
+        V("TensorMap:two-objects", "two TensorMap objects built empty and filled one after the other do not each keep their own "
+          "maps (first: %s, second: %s)" % (",".join(badA) or "UBI?", ",".join(badB) or "-"))
     # history with other map computations in between: strains and stresses (which work with the REFERENCE cell's B) are
     # computed on the same object, before or after the orientation maps are first read; U/B/UB/unitcell/mt stay those of
     # each voxel's own UBI
